@@ -16,7 +16,7 @@ def run(ctx: core.Ctx):
     drivers, terms = [], []
     for i in range(ntr):
         d = ls.Driver(rng)
-        ls.random_walk(rng, d, rng.choice([20, 40, 60]), faults=False, kills=False, auth_variants=False)
+        ls.random_walk(rng, d, rng.choice([20, 40, 60]), faults=False, kills=False, auth_variants=False, app_failures=(i % 2 == 1))
         drivers.append(d)
         terms.append(ls.coq_term(d))
         d.close()
@@ -48,6 +48,21 @@ def run(ctx: core.Ctx):
         d.app_result("set", ncols=1, items=[("row", 60)] * 600 + [("raise", None)])
         d.payload(("ping",))
         drivers.append(d); terms.append(ls.coq_term(d)); d.close()
+    # every application callback of the command phase failing (MysqlError / any exception), each followed by a PING that must
+    # be answered in step: use, reset (COM_STMT_RESET and after a COM_CHANGE_USER whose OK is already written), query
+    for depeof in (False, True):
+        for code in (None, 1064):
+            d = ls.Driver(rng)
+            d.handshake(True, depeof); d.decide("ASuccess"); d.app_result("void")
+            d.payload(("initdb",)); d.app_result("raise", raise_code=code); d.payload(("ping",))
+            d.payload(("prepare", 1)); d.payload(("reset", 0)); d.app_result("raise", raise_code=code); d.payload(("ping",))
+            d.payload(("query",)); d.app_result("raise", raise_code=code); d.payload(("ping",))
+            d.payload(("fieldlist",)); d.app_result("raise", raise_code=code); d.payload(("ping",))
+            d.payload(("execute", 0, False)); d.app_result("raise", raise_code=code); d.payload(("ping",))
+            d.payload(("changeuser",)); d.decide("ASuccess"); d.app_result("raise", raise_code=code)
+            if d.blocked() == "read":
+                d.payload(("ping",))
+            drivers.append(d); terms.append(ls.coq_term(d)); d.close()
     model = core.run_coq_terms(ctx, "c03t", HEADER, terms, shard=20)
     disagreements = []
     kinds = {}
